@@ -159,8 +159,8 @@ fn kind_of(msg: &str) -> String {
 
 fn function_case(lines: &[&str], out: &mut String) {
     let head: Vec<&str> = lines[0].split_whitespace().collect();
-    let caps = caps_of(head[2]);
     let _ = writeln!(out, "C {}", head[1]);
+    let caps = caps_of(head[2]);
     let arena = Arena::new(256 << 20).unwrap();
     let mut cmd: Option<ProcessCommand<'_>> = None;
     for l in &lines[1..] {
